@@ -30,6 +30,7 @@ import (
 	"github.com/ucan-wg/go-ucan/token/delegation"
 	"github.com/ucan-wg/go-ucan/token/invocation"
 
+	"verif/harness/api"
 	"verif/harness/env"
 	"verif/harness/h"
 	"verif/harness/keys"
@@ -429,6 +430,30 @@ var decoders = []decoder{
 	{"invocation.FromSealed", "inv", "cbor", func(cb, js []byte, n ipld.Node) (token.Token, error) { t, _, err := invocation.FromSealed(cb); return ni(t, err) }},
 	{"invocation.FromDagJson", "inv", "json", func(cb, js []byte, n ipld.Node) (token.Token, error) { return ni(invocation.FromDagJson(js)) }},
 	{"invocation.FromIPLD", "inv", "node", func(cb, js []byte, n ipld.Node) (token.Token, error) { return ni(invocation.FromIPLD(n)) }},
+}
+
+// plus every other public decode entry point (harness/api)
+func init() {
+	have := map[string]bool{}
+	for _, d := range decoders {
+		have[d.name] = true
+	}
+	for _, format := range []string{"cbor", "json"} {
+		for _, d := range api.Decoders(format) {
+			d, format := d, format
+			if have[d.Name] || strings.Contains(d.Name, "FromIPLD") {
+				continue
+			}
+			decoders = append(decoders, decoder{d.Name, d.Typed, format, func(cb, js []byte, n ipld.Node) (token.Token, error) {
+				in := cb
+				if format == "json" {
+					in = js
+				}
+				t, _, err := d.Bytes(in)
+				return t, err
+			}})
+		}
+	}
 }
 
 func refCommandValid(s string) bool {
